@@ -6,7 +6,7 @@ ConWorld : inputs are the numbers of a solver model, the code under test is the 
            function (compiled numba, real numpy, public API), goals are evaluated numerically.
            A `sat` answer is only reported as VIOLATION when the goal also fails here.
 """
-import math, time, traceback, cmath
+import math, os, time, traceback, cmath
 from fractions import Fraction
 import numpy as rnp
 import z3
@@ -498,8 +498,26 @@ def replay_goal(fn, params, model, goal_name):
     return (not ok), {"concrete_goal_value": ok, "failed_assumptions": Wc.failed_assumptions}
 
 
+def _in_harness(exc):
+    """the exception was raised by a statement of the checking machinery itself (/verif), not by the code under test or a library it calls"""
+    from .proxy import ContractViolation
+    if isinstance(exc, ContractViolation):
+        return False
+    tb = exc.__traceback__
+    last = None
+    while tb is not None:
+        last = tb
+        tb = tb.tb_next
+    fn_ = last.tb_frame.f_code.co_filename if last is not None else ""
+    root = os.path.dirname(os.path.dirname(os.path.abspath(__file__)))
+    return os.path.abspath(fn_).startswith(root + os.sep)
+
+
 def _exception_goal(fn, params, W, e):
     tb = traceback.format_exc(limit=6)
+    if _in_harness(e):
+        # a bug of the harness or of the engine: never a finding candidate
+        return {"goal": "<exception:%s>" % type(e).__name__, "verdict": "encoder-error", "reason": "raised inside the checking machinery: %s: %s" % (type(e).__name__, str(e)[:300]), "trace": tb[-1500:]}
     rec = {"goal": "<exception:%s>" % type(e).__name__, "verdict": "unknown", "reason": "%s: %s" % (type(e).__name__, str(e)[:300]), "trace": tb[-1500:]}
     # reproduce on a generic concrete input satisfying the assumptions
     try:
